@@ -371,11 +371,30 @@ def exec_module(code):
     return mod
 
 
-def behaviour(ctx, source, state):
-    case = {"source": source, "typechecker": None}
-    plain = exec_module(compile(source, "<vf-c10>", "exec", dont_inherit=True))
+def encode_source(source, encoding):
+    """-> (source text incl. a PEP 263 cookie / probe constant, the bytes of the file)"""
+    if not encoding:
+        return source, source.encode("utf-8")
+    # a string constant whose bytes in the declared encoding are ALSO valid UTF-8 (C3 A9 ...): decoding must follow the declaration
+    probe = "\nENC_PROBE = 'Ã©Ã\xa0'\n" if encoding in ("latin-1", "iso-8859-15") else "\nENC_PROBE = 'Ã©'\n"
+    if encoding == "utf-8-sig":
+        text = source + probe
+        return text, text.encode("utf-8-sig")
+    text = f"# -*- coding: {encoding} -*-\n" + source + probe
+    try:
+        return text, text.encode(encoding)
+    except UnicodeEncodeError:
+        # the generated module uses characters the encoding lacks: keep it a UTF-8 file, with an explicit utf-8 declaration
+        text = "# -*- coding: utf-8 -*-\n" + source + probe
+        return text, text.encode("utf-8")
+
+
+def behaviour(ctx, source, state, data=None):
+    case = {"source": source, "typechecker": None, "encoding": state.get("encoding")}
+    data = source.encode("utf-8") if data is None else data
+    plain = exec_module(compile(data, "<vf-c10>", "exec", dont_inherit=True))
     loader = _JaxtypingLoader("vf_c10_mod", "<vf-c10>", typechecker=Typechecker(None))
-    hooked = exec_module(loader.source_to_code(source.encode("utf-8"), "<vf-c10>"))
+    hooked = exec_module(loader.source_to_code(data, "<vf-c10>"))
     if plain.__doc__ != hooked.__doc__:
         raise Violation("behaviour-doc", case, f"__doc__ {plain.__doc__!r} vs {hooked.__doc__!r}")
     for name in sorted(set(vars(plain)) | set(vars(hooked))):
@@ -411,19 +430,21 @@ def behaviour(ctx, source, state):
 def run(ctx):
     run_corpus(ctx)
 
-    @given(gen_module(), st.sampled_from(TC_STRINGS))
-    def generated(ms, tcs):
+    @given(gen_module(), st.sampled_from(TC_STRINGS), st.sampled_from([None, "latin-1", None, "cp1252", None, "utf-8-sig", None, "iso-8859-15"]))
+    def generated(ms, tcs, encoding):
         source, state = ms
-        res = validate(source, "<vf-c10>", tcs, {})
+        source, data = encode_source(source, encoding)
+        state = dict(state, encoding=encoding)
+        res = validate(source, "<vf-c10>", tcs, {"encode": False, "bytes": data} if encoding else {})
         if res is None:
             raise AssertionError(f"harness generated a module that does not compile:\n{source}")
         ndefs, checked, feats = res
         if state.get("shape") not in ("only-doc", "empty", "only-future"):
-            behaviour(ctx, source, state)
+            behaviour(ctx, source, state, data)
         ctx.extra["programs"] = ctx.extra.get("programs", 0) + 1
         ctx.extra["disagreements_checked"] = ctx.extra.get("disagreements_checked", 0) + checked
         ctx.note(source, ndefs >= 1 and (feats["decorated"] or feats["nested"] or feats["prologue"]),
-                 classes=["generated", f"prologue-{state.get('shape')}"] + [f"feat-{k}" for k, v in feats.items() if v],
+                 classes=["generated", f"prologue-{state.get('shape')}"] + ([f"encoding-{encoding}"] if encoding else []) + [f"feat-{k}" for k, v in feats.items() if v],
                  sample={"source": source, "additions_verified": checked})
 
     ctx.hyp(generated, max_examples=ctx.n(250, 2500))
@@ -441,8 +462,15 @@ def replay(case, clause, ctx):
             data = open(case["file"], "rb").read()
             validate(decode_source(data), case["file"], case.get("typechecker"), {"corpus": True, "encode": False, "bytes": data})
         else:
-            validate(case["source"], "<vf-c10>", case.get("typechecker"), {})
-            behaviour(ctx, case["source"], {})
+            enc = case.get("encoding")
+            data = None
+            if enc:
+                try:
+                    data = case["source"].encode(enc)
+                except UnicodeEncodeError:
+                    data = case["source"].encode("utf-8")
+            validate(case["source"], "<vf-c10>", case.get("typechecker"), {"encode": False, "bytes": data} if enc else {})
+            behaviour(ctx, case["source"], {"encoding": enc}, data)
     except Violation as v:
         return str(v)
     return None
